@@ -28,11 +28,9 @@ import (
 	"encoding/binary"
 	"errors"
 	"fmt"
-	"os"
 	"sort"
 	"strings"
 	"sync"
-	"syscall"
 	"testing"
 	"testing/synctest"
 	"time"
@@ -73,7 +71,7 @@ const (
 	histKeep        = 40
 	maxForks        = 4
 	quickGenerated  = 1600
-	thoroughGenCase = 24000
+	thoroughGenCase = 20000
 )
 
 var sizes = []int{64, 128, 256, 512, 1024, 2048, 4096, 8192, 16384, 32768}
@@ -90,19 +88,6 @@ func TestCheck(t *testing.T) {
 }
 
 func run(c *vf.Case) {
-	if os.Getenv("C03_TIMING") != "" { // development aid only: never part of a verdict
-		cpu := func() time.Duration {
-			var ru syscall.Rusage
-			_ = syscall.Getrusage(syscall.RUSAGE_SELF, &ru)
-			return time.Duration(ru.Utime.Nano() + ru.Stime.Nano())
-		}
-		t0 := cpu()
-		defer func() {
-			if d := cpu() - t0; d > 300*time.Millisecond {
-				fmt.Fprintf(os.Stderr, "TIMING case %d cpu %v\n", c.Idx, d)
-			}
-		}()
-	}
 	if c.Idx < len(scripts) {
 		runScript(c, scripts[c.Idx])
 		return
@@ -727,7 +712,6 @@ type engine struct {
 	recPos  int
 	work    int64
 	h       *vf.Hash
-	quiet   bool
 
 	ticksChecked, ticksNonEmpty, ticksSilentOK, nackPkts, numsCompared, streamTicks int64
 	offTick                                                                         int64
@@ -830,7 +814,7 @@ func (e *engine) feed(a arrival) {
 		}
 	}
 	st.ev[kind]++
-	if e.c.Debug && !e.quiet {
+	if e.c.Debug {
 		e.c.Logf("  arrive stream=%d seq=%d %s (mode %d)", st.idx, a.seq, evNames[kind], a.mode)
 	}
 	st.hist = append(st.hist, arrivalRec{seq: a.seq, kind: kind, tick: e.tick})
@@ -942,7 +926,7 @@ func (e *engine) checkStream(st *stream, t int64) {
 		st.models, results = keep, keepRes
 	}
 	m, r := st.models[0], results[0]
-	if e.c.Debug && !e.quiet {
+	if e.c.Debug {
 		e.c.Logf("tick %d stream=%d first=%d highest=%d expected %d %s requested %d %s", t, st.idx, uint16(m.first), uint16(m.highest), len(r.E), u16s(r.E, 12), len(r.G), u16s(r.G, 12))
 	}
 	e.numsCompared += int64(len(r.G))
